@@ -463,6 +463,27 @@ def r12e(ctx: Context) -> None:
         rule.ok(key, "no reference to another rule's plugin class" + (f"; shares stateless helper(s) {[c.name for c in cross_helpers]}" if cross_helpers else ""))
 
 
+def r12j(ctx: Context) -> None:
+    """'What a rule reports does not depend on which other rules are enabled': a rule learns about the run through the
+    context it is handed (the file, the mode, the line) - never about the other rules.  The context carries a
+    reference to the plugin manager for its own reporting; rule code that reads it (the lists of enabled / registered
+    plugins, the id table) can make its verdict depend on the rule set."""
+    prog = ctx.prog
+    rule = ctx.rule("R12j", "no rule reads the plugin manager (the set of enabled rules) through its context", 40)
+    base = prog.cls(RULE_PLUGIN)
+    forbidden = {"owning_manager", "enabled_plugins", "registered_plugins", "all_plugin_ids"}
+    for cls in sorted(base.all_subclasses(), key=lambda c: c.qualname):
+        if not cls.module.rel.startswith("pymarkdown/plugins/"):
+            continue
+        hits = [(m, n) for m in cls.methods.values() for n in walk_local(m.node) if isinstance(n, ast.Attribute) and n.attr in forbidden]
+        key = f"{cls.name}: manager access"
+        if hits:
+            method, node = hits[0]
+            rule.fail(key, where(method, node), f"{method.short} reads '{norm(node)[:60]}': the rule asks the plugin manager about the other rules, so what it reports depends on which rules are enabled")
+        else:
+            rule.ok(key, "reads only its own context")
+
+
 def run(ctx: Context) -> None:
     r12a(ctx)
     r12b(ctx)
@@ -471,6 +492,7 @@ def run(ctx: Context) -> None:
     # what one rule sees must not depend on which other rules are enabled: the token pass runs whatever they implement
     c14.r14_tokenizer_calls(ctx, "R12i")
     r12e(ctx)
+    r12j(ctx)
     from sa.raises import RaiseAnalysis
 
     # a rule's callbacks must not depend on which other rules are enabled: the life-cycle order holds
